@@ -333,7 +333,7 @@ func modOp(copy, author, tick, name, oldl int, ds [][2]int, newl int) bdOp {
 // memory or on disk) and wake up in another order.
 func scaleBigFile(c *Config, n int, disk bool, shape string) {
 	rng := c.Rng
-	cfg := bdCfg{people: rng.Intn(2) == 0, hdisk: disk, rle: true}
+	cfg := bdCfg{people: rng.Intn(2) == 0, hdisk: disk, rle: true, nomodel: n > 300000}
 	author := func() int {
 		if cfg.people {
 			return rng.Intn(3)
@@ -444,7 +444,7 @@ func scaleBigFile(c *Config, n int, disk bool, shape string) {
 // renames its own share; sleep and wake up.
 func scaleManyFiles(c *Config, nf int, disk bool) {
 	rng := c.Rng
-	cfg := bdCfg{people: rng.Intn(2) == 0, track: rng.Intn(2) == 0, hdisk: disk, rle: true}
+	cfg := bdCfg{people: rng.Intn(2) == 0, track: rng.Intn(2) == 0, hdisk: disk, rle: true, nomodel: nf > 20000}
 	author := func() int {
 		if cfg.people {
 			return rng.Intn(3)
